@@ -1033,21 +1033,21 @@ Proof.
   - intros e l -> q. rewrite (sub_embed _ _ 1 _ Gj). simpl. destruct (salloc_opt init sc nx). rewrite Hn. reflexivity.
 Qed.
 
-Lemma switch_case n : P_exec n -> P_list n ->
-  forall init tag cls g sc nx K P E fr out o E' out',
-    exec (S n) (SSwitch init tag cls) E out = Res o E' out' ->
-    (forall q, g (P ++ q) = snode_at q (SSwitch init tag cls) sc nx K P) -> wf (SSwitch init tag cls) = true ->
+Lemma switch_case_notag n : P_exec n -> P_list n ->
+  forall init cls g sc nx K P E fr out o E' out',
+    exec (S n) (SSwitch init None cls) E out = Res o E' out' ->
+    (forall q, g (P ++ q) = snode_at q (SSwitch init None cls) sc nx K P) -> wf (SSwitch init None cls) = true ->
     agree E sc fr -> scope_ok sc nx ->
-    exists r, reach g (Some (sstart (SSwitch init tag cls) P)) fr out r /\ post_ok K sc nx sc fr o E' out' r.
+    exists r, reach g (Some (sstart (SSwitch init None cls) P)) fr out r /\ post_ok K sc nx sc fr o E' out' r.
 Proof.
-  intros IHe IHl init tag cls g sc nx K P E fr out o E' out' H G Hwf Hag Hok.
+  intros IHe IHl init cls g sc nx K P E fr out o E' out' H G Hwf Hag Hok.
   rewrite exec_switch_eq in H.
   pose proof (app_nil_path _ _ _ G) as G0. simpl in G0.
   simpl in Hwf.
-  apply andb_prop in Hwf. destruct Hwf as [Hwf Wb]. apply andb_prop in Hwf. destruct Hwf as [Hwf Wtag].
+  apply andb_prop in Hwf. destruct Hwf as [Hwf Wb].
   apply andb_prop in Hwf. destruct Hwf as [Hwf Wshape]. apply andb_prop in Hwf. destruct Hwf as [Hwf Wne].
   apply andb_prop in Hwf. destruct Hwf as [Hwf Wleaf]. apply andb_prop in Hwf. destruct Hwf as [Si Wi].
-  destruct tag as [t|]; [discriminate|]. clear Wtag Wleaf. simpl in Wshape.
+  clear Wleaf.
   destruct cls as [|c0 cls']; [discriminate|]. clear Wne.
   set (cls := c0 :: cls') in *.
   set (N := Some (sstart c0 ((P ++ [2]) ++ [0]))).
@@ -1207,6 +1207,308 @@ Proof.
     + subst r5. eexists. split; [eapply reach_trans; [exact Pre | exact R5] | reflexivity].
 Qed.
 
+
+(* ---- switch with a tag *)
+
+Lemma match_ints_leaf E sc fr v l : forallb is_leaf l = true -> agree E sc fr ->
+  forall nx, match_ints E v l = Some (existsb (fun o => Z.eqb v (oval fr o)) (fst (aalloc_list l sc nx))).
+Proof.
+  induction l as [|a l IH]; simpl; intros Hl Hag nx; [reflexivity|].
+  apply andb_prop in Hl. destruct Hl as [Ha Hl].
+  rewrite (leaf_val a sc nx None E fr Ha Hag).
+  destruct (aalloc a sc nx None) as [oa n1]. simpl.
+  specialize (IH Hl Hag n1). destruct (aalloc_list l sc n1) as [os n2]. simpl in *.
+  destruct (Z.eqb v (oval fr oa)); [reflexivity | exact IH].
+Qed.
+
+Lemma match_ints_first E sc fr v e rest nx v0 :
+  forallb is_leaf rest = true -> agree E sc fr -> oval fr (fst (aalloc e sc nx None)) = v0 ->
+  (if Z.eqb v v0 then Some true else match_ints E v rest) =
+  Some (existsb (fun o => Z.eqb v (oval fr o)) (fst (aalloc_list (e :: rest) sc nx))).
+Proof.
+  intros Hl Hag Hv. simpl. destruct (aalloc e sc nx None) as [oe n1]. simpl in *.
+  pose proof (match_ints_leaf E sc fr v rest Hl Hag n1) as M.
+  destruct (aalloc_list rest sc n1) as [os n2]. simpl in *. subst v0.
+  destruct (Z.eqb v (oval fr oe)); [reflexivity | exact M].
+Qed.
+
+Lemma switch_embed_tag init t cls g sc nx K P j ce body ft :
+  (forall q, g (P ++ q) = snode_at q (SSwitch init (Some t) cls) sc nx K P) ->
+  nth_error cls j = Some (SCase ce body ft) ->
+  let sc1 := fst (salloc_opt init sc nx) in
+  let n1 := snd (salloc_opt init sc nx) in
+  let otag := fst (aalloc t sc1 n1 None) in
+  let n2 := snd (aalloc t sc1 n1 None) in
+  let nj := snd (salloc_list (firstn j cls) sc1 n2) in
+  let pc := (P ++ [2]) ++ [j] in
+  let next := nth_error cls (S j) in
+  let r := clause_ref (SCase ce body ft) next P pc ((P ++ [2]) ++ [S j]) in
+  let w := wire_case (clause_empty (SCase ce body ft)) (negb (is_some next)) (is_some next && ft)
+             (match next with Some c' => clause_empty c' | None => false end)
+             (match next with Some c' => Nat.ltb 0 (clause_exprs c') | None => false end) in
+  g pc = Some (mknode (match ce with CInts (e :: l) => XCase otag (fst (aalloc_list (e :: l) sc1 nj)) | _ => XNop end)
+                      (r (cw_tnext w)) (r (cw_fnext w))) /\
+  (forall q, g ((pc ++ [0]) ++ q) =
+     snode_at q (SBlock (case_body body ft)) sc1 (calloc ce sc1 nj) (mkctx (r (cw_body_t w)) (Some P) (k_cont K)) (pc ++ [0])) /\
+  (forall e l, ce = CInts (e :: l) -> forall q, g ((pc ++ [1]) ++ q) =
+     anode_at q e sc1 nj None (pc ++ [1]) (r (cw_child0_t w))).
+Proof.
+  intros G Hn. cbv zeta.
+  pose proof (sub_embed _ _ 2 _ G) as G2. pose proof (sub_embed _ _ j _ G2) as Gj.
+  split; [|split].
+  - rewrite (app_nil_path _ _ _ Gj). simpl. destruct (salloc_opt init sc nx). rewrite Hn.
+    destruct ce as [|[|e l]|l]; reflexivity.
+  - intros q. rewrite (sub_embed _ _ 0 _ Gj). simpl. destruct (salloc_opt init sc nx). rewrite Hn. reflexivity.
+  - intros e l -> q. rewrite (sub_embed _ _ 1 _ Gj). simpl. destruct (salloc_opt init sc nx). rewrite Hn. reflexivity.
+Qed.
+
+Lemma switch_case_tag n : P_exec n -> P_list n ->
+  forall init t cls g sc nx K P E fr out o E' out',
+    exec (S n) (SSwitch init (Some t) cls) E out = Res o E' out' ->
+    (forall q, g (P ++ q) = snode_at q (SSwitch init (Some t) cls) sc nx K P) -> wf (SSwitch init (Some t) cls) = true ->
+    agree E sc fr -> scope_ok sc nx ->
+    exists r, reach g (Some (sstart (SSwitch init (Some t) cls) P)) fr out r /\ post_ok K sc nx sc fr o E' out' r.
+Proof.
+  intros IHe IHl init t cls g sc nx K P E fr out o E' out' H G Hwf Hag Hok.
+  rewrite exec_switch_eq in H.
+  pose proof (app_nil_path _ _ _ G) as G0. simpl in G0.
+  simpl in Hwf.
+  apply andb_prop in Hwf. destruct Hwf as [Hwf Wb].
+  apply andb_prop in Hwf. destruct Hwf as [Hwf Wshape]. apply andb_prop in Hwf. destruct Hwf as [Hwf Wne].
+  apply andb_prop in Hwf. destruct Hwf as [Hwf Wleaf]. apply andb_prop in Hwf. destruct Hwf as [Si Wi].
+  destruct cls as [|c0 cls']; [discriminate|]. clear Wne.
+  set (cls := c0 :: cls') in *.
+  set (N := Some (sstart c0 ((P ++ [2]) ++ [0]))).
+  set (Ni := match init with Some _ => N | None => Some (astart t (P ++ [1])) end).
+  assert (Start : Some (sstart (SSwitch init (Some t) cls) P) =
+                  match init with Some s0 => Some (sstart s0 (P ++ [0])) | None => Ni end).
+  { destruct init; reflexivity. }
+  assert (Gi : forall s0, init = Some s0 -> forall q, g ((P ++ [0]) ++ q) =
+             snode_at q s0 sc nx (mkctx Ni (k_brk K) (k_cont K)) (P ++ [0])).
+  { intros s0 -> q. rewrite (sub_embed _ _ 0 _ G). simpl. destruct (salloc s0 sc nx). reflexivity. }
+  assert (Gt : forall q, g ((P ++ [1]) ++ q) =
+             anode_at q t (fst (salloc_opt init sc nx)) (snd (salloc_opt init sc nx)) None (P ++ [1]) (if is_some init then None else N)).
+  { intros q. rewrite (sub_embed _ _ 1 _ G). simpl. destruct (salloc_opt init sc nx). reflexivity. }
+  (* stage 1: init *)
+  destruct (exec_opt n init E out) as [|o1 E1 out1] eqn:Hinit; [discriminate|].
+  assert (Wi' : forall s0, init = Some s0 -> wf s0 = true) by (intros s0 ->; exact Wi).
+  destruct (init_stage n IHe init g sc nx (k_brk K) (k_cont K) Ni (P ++ [0])
+              E fr out o1 E1 out1 Hinit Gi Si Wi' Hag Hok) as [r1 [R1 Post1]].
+  rewrite <- Start in R1.
+  pose proof (salloc_opt_ok init sc nx Hok) as Hok1.
+  pose proof (salloc_opt_mono init sc nx) as Mi.
+  pose proof (aalloc_mono t (fst (salloc_opt init sc nx)) (snd (salloc_opt init sc nx)) None) as Mt.
+  destruct o1; try (destruct Post1 as [? [_ [Hc _]]]; discriminate).
+  2:{ inversion H; subst. eexists. split; [exact R1 | reflexivity]. }
+  destruct Post1 as [fr1 [-> [_ [Pr1 Ag1]]]].
+  (* stage 1b: the tag *)
+  assert (TagStage :
+    match aeval E1 t with
+    | None => reach g Ni fr1 out1 (MPanic out1)
+    | Some v => exists fr2, reach g Ni fr1 out1 (MRun N fr2 out1) /\ oval fr2 (fst (aalloc t (fst (salloc_opt init sc nx)) (snd (salloc_opt init sc nx)) None)) = v /\
+                  (forall i, i < (snd (salloc_opt init sc nx)) -> fr2 i = fr1 i)
+    end).
+  { remember (fst (salloc_opt init sc nx)) as sc1' eqn:Esc in *.
+    remember (snd (salloc_opt init sc nx)) as n1' eqn:En in *.
+    destruct init as [s0|].
+    - simpl in Wleaf. rewrite (leaf_val t sc1' n1' None E1 fr1 Wleaf Ag1).
+      exists fr1. split; [apply reach_refl | auto].
+    - pose proof (aoperand g t _ _ _ _ E1 fr1 out1 Gt Ag1 (proj1 Hok1)) as A. simpl in A.
+      destruct (is_leaf t) eqn:Lt.
+      + rewrite (leaf_val t sc1' n1' None E1 fr1 Lt Ag1) in A |- *.
+        destruct A as [fr2 [R2 [V2 F2]]]. exists fr2. split; [|split; [exact V2 | exact F2]].
+        eapply reach_step; [|exact R2]. unfold step.
+        assert (Ea : astart t (P ++ [1]) = P ++ [1]) by (destruct t; try discriminate; reflexivity).
+        unfold Ni. rewrite Ea. rewrite (app_nil_path _ _ _ Gt). destruct t; try discriminate; reflexivity.
+      + exact A. }
+  unfold eval_tag in H.
+  destruct (aeval E1 t) as [tv|].
+  2:{ inversion H; subst. eexists. split; [eapply reach_trans; [exact R1 | exact TagStage] | reflexivity]. }
+  destruct TagStage as [fr2 [R2 [V2 F2]]].
+  assert (Ag2 : agree E1 (fst (salloc_opt init sc nx)) fr2) by (eapply agree_below; [exact Ag1 | exact (proj1 Hok1) | exact F2]).
+  assert (Otag : forall d, (fst (aalloc t (fst (salloc_opt init sc nx)) (snd (salloc_opt init sc nx)) None)) = OSlot d -> d < (snd (aalloc t (fst (salloc_opt init sc nx)) (snd (salloc_opt init sc nx)) None))).
+  { intros d Hd. destruct (is_leaf t) eqn:Lt.
+    - destruct t; try discriminate; simpl in Hd |- *; try discriminate.
+      destruct (slot_of x (fst (salloc_opt init sc nx))) as [i|] eqn:Hs; inversion Hd; subst.
+      apply (proj1 Hok1). eapply slot_of_In; eauto.
+    - destruct (aalloc_slot t (fst (salloc_opt init sc nx)) (snd (salloc_opt init sc nx)) None Lt) as [d' [Hd' Hr]]. rewrite Hd' in Hd. inversion Hd; subst. lia. }
+  assert (Htag : forall fr3, (forall i, i < (snd (aalloc t (fst (salloc_opt init sc nx)) (snd (salloc_opt init sc nx)) None)) -> fr3 i = fr2 i) -> oval fr3 (fst (aalloc t (fst (salloc_opt init sc nx)) (snd (salloc_opt init sc nx)) None)) = tv).
+  { intros fr3 Hinv. rewrite <- V2. destruct (fst (aalloc t (fst (salloc_opt init sc nx)) (snd (salloc_opt init sc nx)) None)) as [z|d] eqn:Ho; [reflexivity|].
+    simpl. unfold geti. rewrite Hinv; [reflexivity | apply Otag; reflexivity]. }
+  assert (Final : forall fr3 out3, reach g (Some P) fr3 out3 (MRun (k_next K) fr3 out3)).
+  { intros. apply reach_one. unfold step. rewrite G0. reflexivity. }
+  set (isentry := fun j (st : option path) =>
+         match nth_error cls j with
+         | None => st = Some P
+         | Some c => st = Some (sstart c ((P ++ [2]) ++ [j])) \/ (is_default c = true /\ st = Some ((P ++ [2]) ++ [j]))
+         end).
+  (* stage 2: the chain of clauses *)
+  assert (Chain : forall k j, j + k = length cls ->
+     (forall i c', i < j -> nth_error cls i = Some c' -> is_default c' = false) ->
+     forall st, isentry j st ->
+     forall fr3, (forall i, i < (snd (aalloc t (fst (salloc_opt init sc nx)) (snd (salloc_opt init sc nx)) None)) -> fr3 i = fr2 i) ->
+     match select E1 (Some tv) (skipn j cls) j with
+     | None => reach g st fr3 out1 (MPanic out1)
+     | Some sel => exists fr4, (forall i, i < (snd (aalloc t (fst (salloc_opt init sc nx)) (snd (salloc_opt init sc nx)) None)) -> fr4 i = fr2 i) /\
+         match (match sel with Some i => Some i | None => default_index cls 0 end) with
+         | Some i => exists ce body ft, nth_error cls i = Some (SCase ce body ft) /\
+             reach g st fr3 out1 (MRun (Some (clause_body_start (SCase ce body ft) P ((P ++ [2]) ++ [i]))) fr4 out1)
+         | None => reach g st fr3 out1 (MRun (Some P) fr4 out1)
+         end
+     end).
+  { induction k as [|k IHk]; intros j Hj Hnd st Hst fr3 Hinv.
+    - assert (j = length cls) by lia. subst j. rewrite skipn_all. simpl select.
+      unfold isentry in Hst. rewrite (proj2 (nth_error_None cls (length cls))) in Hst by lia. subst st.
+      exists fr3. split; [exact Hinv|].
+      rewrite default_index_none; [apply reach_refl|].
+      intros c Hc. apply In_nth_error in Hc. destruct Hc as [i Hi]. eapply Hnd; [|exact Hi].
+      apply nth_error_Some. congruence.
+    - destruct (skipn j cls) as [|c l] eqn:Hsk.
+      { pose proof (skipn_nil_length _ _ Hsk). lia. }
+      destruct (skipn_cons_nth _ _ _ _ Hsk) as [Hnth [Hsk' HSj]].
+      destruct (shape_nth _ _ Wshape j c Hnth) as [ce [body [-> [Hce Hlast]]]].
+      destruct (switch_embed_tag init t cls g sc nx K P j ce body false G Hnth) as [Gn [Gb Gc]].
+      assert (Ag3 : agree E1 (fst (salloc_opt init sc nx)) fr3).
+      { eapply agree_below; [exact Ag2 | exact (proj1 Hok1)|]. intros i Hi. apply Hinv. lia. }
+      pose proof (salloc_list_mono (firstn j cls) (fst (salloc_opt init sc nx)) (snd (aalloc t (fst (salloc_opt init sc nx)) (snd (salloc_opt init sc nx)) None))) as Mj.
+      unfold isentry in Hst. rewrite Hnth in Hst.
+      destruct ce as [|l0|l0]; simpl in Hce.
+      + (* default: the last clause *)
+        assert (HS : S j = length cls).
+        { destruct (Nat.eq_dec (S j) (length cls)) as [e|ne]; [exact e|].
+          assert (Hd : is_default (SCase CDefault body false) = false) by (apply Hlast; lia). discriminate. }
+        simpl select. rewrite <- Hsk', HS, skipn_all. simpl select.
+        rewrite (default_index_at cls 0 j _ Hnth eq_refl Hnd). simpl.
+        exists fr3. split; [exact Hinv|]. exists CDefault, body, false. split; [exact Hnth|].
+        destruct Hst as [-> | [_ ->]].
+        * destruct body as [|s0 body'].
+          -- apply reach_one. unfold step. simpl. rewrite Gn. reflexivity.
+          -- apply reach_refl.
+        * destruct body as [|s0 body']; apply reach_one; unfold step; rewrite Gn; reflexivity.
+      + destruct l0 as [|e rest]; [discriminate|]. simpl in Hce.
+        destruct Hst as [-> | [Hd _]]; [|discriminate].
+        assert (Hb3 : bounded (fst (salloc_opt init sc nx)) (snd (salloc_list (firstn j cls) (fst (salloc_opt init sc nx)) (snd (aalloc t (fst (salloc_opt init sc nx)) (snd (salloc_opt init sc nx)) None))))) by (eapply bounded_mono; [exact (proj1 Hok1) | lia]).
+        pose proof (aoperand g e _ _ _ _ E1 fr3 out1 (Gc e rest eq_refl) Ag3 Hb3) as A.
+        assert (Hnd' : forall i c', i < S j -> nth_error cls i = Some c' -> is_default c' = false).
+        { intros i c' Hi Hc'. destruct (Nat.eq_dec i j) as [->|ne]; [|apply (Hnd i c'); [lia | exact Hc']].
+          rewrite Hnth in Hc'. inversion Hc'; reflexivity. }
+        cbn [select clause_matches match_ints]. simpl sstart.
+        destruct (aeval E1 e) as [v0|] eqn:Hae.
+        2:{ destruct (is_leaf e) eqn:Le; [rewrite (leaf_val e (fst (salloc_opt init sc nx)) (snd (salloc_list (firstn j cls) (fst (salloc_opt init sc nx)) (snd (aalloc t (fst (salloc_opt init sc nx)) (snd (salloc_opt init sc nx)) None)))) None E1 fr3 Le Ag3) in Hae; discriminate | exact A]. }
+        destruct A as [fr4 [RA [V4 F4]]].
+        assert (R0 : reach g (Some (astart e (((P ++ [2]) ++ [j]) ++ [1]))) fr3 out1 (MRun (Some ((P ++ [2]) ++ [j])) fr4 out1)).
+        { destruct (is_leaf e) eqn:Le; [|exact RA].
+          assert (Ea : astart e (((P ++ [2]) ++ [j]) ++ [1]) = ((P ++ [2]) ++ [j]) ++ [1]) by (destruct e; try discriminate; reflexivity).
+          rewrite Ea. eapply reach_step; [|exact RA]. unfold step. rewrite (app_nil_path _ _ _ (Gc e rest eq_refl)).
+          destruct e; try discriminate; reflexivity. }
+        assert (Hinv4 : forall i, i < (snd (aalloc t (fst (salloc_opt init sc nx)) (snd (salloc_opt init sc nx)) None)) -> fr4 i = fr2 i).
+        { intros i Hi. rewrite F4 by lia. apply Hinv. exact Hi. }
+        assert (Ag4 : agree E1 (fst (salloc_opt init sc nx)) fr4).
+        { eapply agree_below; [exact Ag3 | exact Hb3 | exact F4]. }
+        rewrite (match_ints_first E1 (fst (salloc_opt init sc nx)) fr4 tv e rest (snd (salloc_list (firstn j cls) (fst (salloc_opt init sc nx)) (snd (aalloc t (fst (salloc_opt init sc nx)) (snd (salloc_opt init sc nx)) None)))) v0 Hce Ag4 V4).
+        assert (Step : step g ((P ++ [2]) ++ [j]) fr4 out1 =
+                  MRun (if existsb (fun o => Z.eqb tv (oval fr4 o)) (fst (aalloc_list (e :: rest) (fst (salloc_opt init sc nx)) (snd (salloc_list (firstn j cls) (fst (salloc_opt init sc nx)) (snd (aalloc t (fst (salloc_opt init sc nx)) (snd (salloc_opt init sc nx)) None))))))
+                        then Some (clause_body_start (SCase (CInts (e :: rest)) body false) P ((P ++ [2]) ++ [j]))
+                        else match nth_error cls (S j) with
+                             | None => Some P
+                             | Some c' => if Nat.ltb 0 (clause_exprs c') then Some (sstart c' ((P ++ [2]) ++ [S j])) else Some ((P ++ [2]) ++ [S j])
+                             end) fr4 out1).
+        { unfold step. rewrite Gn. unfold exec_node. cbn [act]. rewrite (Htag fr4 Hinv4).
+          destruct (nth_error cls (S j)) as [c'|]; [destruct (Nat.ltb 0 (clause_exprs c'))|];
+            destruct (existsb _ _); reflexivity. }
+        destruct (existsb (fun o => Z.eqb tv (oval fr4 o)) (fst (aalloc_list (e :: rest) (fst (salloc_opt init sc nx)) (snd (salloc_list (firstn j cls) (fst (salloc_opt init sc nx)) (snd (aalloc t (fst (salloc_opt init sc nx)) (snd (salloc_opt init sc nx)) None))))))).
+        * exists fr4. split; [exact Hinv4|]. exists (CInts (e :: rest)), body, false. split; [exact Hnth|].
+          eapply reach_trans; [exact R0|]. apply reach_one. exact Step.
+        * assert (Hst' : isentry (S j) (match nth_error cls (S j) with
+                             | None => Some P
+                             | Some c' => if Nat.ltb 0 (clause_exprs c') then Some (sstart c' ((P ++ [2]) ++ [S j])) else Some ((P ++ [2]) ++ [S j])
+                             end)).
+          { unfold isentry. destruct (nth_error cls (S j)) as [c'|] eqn:Hnext; [|reflexivity].
+            destruct (shape_nth _ _ Wshape (S j) c' Hnext) as [ce' [body' [-> [Hce' _]]]].
+            destruct ce' as [|l1|l1]; simpl in Hce' |- *.
+            - right. split; reflexivity.
+            - destruct l1; [discriminate|]. left. reflexivity.
+            - destruct l1 as [|? [|? ?]]; discriminate. }
+          specialize (IHk (S j) ltac:(lia) Hnd' _ Hst' fr4 Hinv4). rewrite Hsk' in IHk.
+          assert (R4' : reach g (Some (astart e (((P ++ [2]) ++ [j]) ++ [1]))) fr3 out1
+                          (MRun (match nth_error cls (S j) with
+                             | None => Some P
+                             | Some c' => if Nat.ltb 0 (clause_exprs c') then Some (sstart c' ((P ++ [2]) ++ [S j])) else Some ((P ++ [2]) ++ [S j])
+                             end) fr4 out1)).
+          { eapply reach_trans; [exact R0|]. apply reach_one. exact Step. }
+          destruct (select E1 (Some tv) l (S j)) as [sel|].
+          -- destruct IHk as [fr5 [Hinv5 Hm]]. exists fr5. split; [exact Hinv5|].
+             destruct (match sel with Some i => Some i | None => default_index cls 0 end) as [i|].
+             ++ destruct Hm as [ce' [b' [ft' [Hn' R']]]]. exists ce', b', ft'. split; [exact Hn'|].
+                eapply reach_trans; [exact R4' | exact R'].
+             ++ eapply reach_trans; [exact R4' | exact Hm].
+          -- eapply reach_trans; [exact R4' | exact IHk].
+      + destruct l0 as [|e [|e' l1]]; discriminate. }
+  assert (Hst0 : isentry 0 N) by (left; reflexivity).
+  specialize (Chain (length cls) 0 eq_refl (fun i c' Hi _ => match Nat.nlt_0_r i Hi with end) N Hst0 fr2 (fun i _ => eq_refl)).
+  change (skipn 0 cls) with cls in Chain.
+  (* leaving the switch *)
+  assert (Leave : forall fr5 E2 Ext Eb, E2 = Ext ++ Eb -> agree Eb (fst (salloc_opt init sc nx)) fr5 ->
+            agree (restore E (restore E1 E2)) sc fr5).
+  { intros fr5 E2 Ext Eb HE AgB.
+    rewrite (agree_restore _ _ _ _ _ _ _ Ag1 HE AgB).
+    exact (leave_scope init sc nx E fr Eb [] Eb fr5 Hag eq_refl AgB). }
+  assert (R12 : reach g (Some (sstart (SSwitch init (Some t) cls) P)) fr out (MRun N fr2 out1)).
+  { eapply reach_trans; [exact R1 | exact R2]. }
+  destruct (select E1 (Some tv) cls 0) as [sel|].
+  2:{ inversion H; subst. eexists. split; [eapply reach_trans; [exact R12 | exact Chain] | reflexivity]. }
+  destruct Chain as [fr4 [Hinv4 Hm]].
+  assert (Ag4 : agree E1 (fst (salloc_opt init sc nx)) fr4).
+  { eapply agree_below; [exact Ag2 | exact (proj1 Hok1)|]. intros i Hi. apply Hinv4. lia. }
+  assert (Pr4 : preserved fr fr4 sc nx).
+  { eapply preserved_trans; [exact Pr1|]. apply preserved_below. intros i Hi. rewrite Hinv4 by lia. apply F2. lia. }
+  destruct (match sel with Some i => Some i | None => default_index cls 0 end) as [i|].
+  2:{ inversion H; subst o E' out'; clear H.
+      eexists. split; [eapply reach_trans; [exact R12|]; eapply reach_trans; [exact Hm | apply Final]|].
+      pose proof (leave_scope init sc nx E fr E1 [] E1 fr4 Hag eq_refl Ag4) as L.
+      simpl. eexists. split; [reflexivity|]. split; [exact Pr4|]. split; [exists [], (restore E E1); auto | auto]. }
+  destruct Hm as [ce [body [ft [Hnth R4]]]].
+  destruct (shape_nth _ _ Wshape i _ Hnth) as [ce0 [body0 [Heq [Hce _]]]]. inversion Heq; subst ce0 body0 ft; clear Heq.
+  destruct (nth_error_skipn _ _ _ Hnth) as [l' Hsk]. rewrite Hsk in H. simpl run_clauses in H.
+  destruct (switch_embed_tag init t cls g sc nx K P i ce body false G Hnth) as [_ [Gb _]].
+  assert (Wbody : forallb wf body = true).
+  { rewrite forallb_forall in Wb. exact (Wb _ (nth_error_In _ _ Hnth)). }
+  destruct (exec_list n body E1 out1) as [|o2 E2 out2] eqn:Hb; [discriminate|].
+  assert (Pre : reach g (Some (sstart (SSwitch init (Some t) cls) P)) fr out
+                  (MRun (Some (clause_body_start (SCase ce body false) P ((P ++ [2]) ++ [i]))) fr4 out1)).
+  { eapply reach_trans; [exact R12 | exact R4]. }
+  destruct body as [|s0 body'].
+  - destruct n; [discriminate|]. simpl in Hb. inversion Hb; subst o2 E2 out2; clear Hb.
+    inversion H; subst o E' out'; clear H.
+    eexists. split; [eapply reach_trans; [exact Pre | apply Final]|].
+    pose proof (Leave fr4 E1 [] E1 eq_refl Ag4) as L.
+    simpl. eexists. split; [reflexivity|]. split; [exact Pr4|]. split; [eexists [], _; split; [reflexivity | exact L] | intros _; exact L].
+  - simpl in Gb. rewrite ?Bool.andb_false_r in Gb. simpl in Gb.
+    set (body := s0 :: body') in *.
+    pose proof (salloc_list_mono (firstn i cls) (fst (salloc_opt init sc nx)) (snd (aalloc t (fst (salloc_opt init sc nx)) (snd (salloc_opt init sc nx)) None))) as Mj.
+    pose proof (calloc_mono ce (fst (salloc_opt init sc nx)) (snd (salloc_list (firstn i cls) (fst (salloc_opt init sc nx)) (snd (aalloc t (fst (salloc_opt init sc nx)) (snd (salloc_opt init sc nx)) None))))) as Mc.
+    assert (Hokb : scope_ok (fst (salloc_opt init sc nx)) (calloc ce (fst (salloc_opt init sc nx)) (snd (salloc_list (firstn i cls) (fst (salloc_opt init sc nx)) (snd (aalloc t (fst (salloc_opt init sc nx)) (snd (salloc_opt init sc nx)) None)))))).
+    { eapply scope_ok_mono; [exact Hok1 | lia]. }
+    destruct (branch_block n IHl body g _ _ (Some P) (k_cont K) _ _ E1 fr4 out1 o2 E2 out2 Hb Gb Wbody Ag4 Hokb) as [r5 [R5 Post5]].
+    assert (W5 : forall fr5, preserved fr4 fr5 (fst (salloc_opt init sc nx)) (calloc ce (fst (salloc_opt init sc nx)) (snd (salloc_list (firstn i cls) (fst (salloc_opt init sc nx)) (snd (aalloc t (fst (salloc_opt init sc nx)) (snd (salloc_opt init sc nx)) None))))) -> preserved fr fr5 sc nx).
+    { intros fr5 Pr5. eapply preserved_trans; [exact Pr4|]. eapply preserved_weaken; [exact Pr5|].
+      intros x Hx Hv. destruct (weaken_after_opt init sc nx x Hok Hx Hv) as [A B]. split; [lia | exact B]. }
+    destruct o2; simpl in Post5, H; inversion H; subst o E' out'; clear H.
+    + destruct Post5 as [fr5 [-> [Pr5 [Ext [Eb [HE AgB]]]]]].
+      eexists. split; [eapply reach_trans; [exact Pre|]; eapply reach_trans; [exact R5 | apply Final]|].
+      pose proof (Leave fr5 E2 Ext Eb HE AgB) as L.
+      simpl. eexists. split; [reflexivity|]. split; [apply W5; exact Pr5|]. split; [eexists [], _; split; [reflexivity | exact L] | intros _; exact L].
+    + destruct Post5 as [fr5 [-> [Pr5 [Ext [Eb [HE AgB]]]]]].
+      eexists. split; [eapply reach_trans; [exact Pre|]; eapply reach_trans; [exact R5 | apply Final]|].
+      pose proof (Leave fr5 E2 Ext Eb HE AgB) as L.
+      simpl. eexists. split; [reflexivity|]. split; [apply W5; exact Pr5|]. split; [eexists [], _; split; [reflexivity | exact L] | intros _; exact L].
+    + destruct Post5 as [fr5 [-> [Pr5 [Ext [Eb [HE AgB]]]]]].
+      eexists. split; [eapply reach_trans; [exact Pre | exact R5]|].
+      pose proof (Leave fr5 E2 Ext Eb HE AgB) as L.
+      simpl. eexists. split; [reflexivity|]. split; [apply W5; exact Pr5|]. split; [eexists [], _; split; [reflexivity | exact L] | discriminate].
+    + subst r5. eexists. split; [eapply reach_trans; [exact Pre | exact R5] | reflexivity].
+Qed.
+
 (* ------------------------------------------------------------------ all statements *)
 
 Lemma step_exec n : P_exec n -> P_list n -> P_loop n -> P_exec (S n).
@@ -1227,7 +1529,7 @@ Proof.
   - eapply sim_break; eauto.
   - eapply sim_continue; eauto.
   - assert (Hs : fst (salloc (SSwitch init tag cls) sc nx) = sc) by (rewrite salloc_scope; reflexivity).
-    rewrite Hs. eapply switch_case; eauto.
+    rewrite Hs. destruct tag as [t|]; [eapply switch_case_tag | eapply switch_case_notag]; eauto.
   - simpl in Hwf. discriminate.
 Qed.
 
@@ -1305,7 +1607,7 @@ Proof.
     assert (Hp : match post with Some s => Some (norm s) | None => None end = post).
     { destruct post; simpl in *; [rewrite (proj1 H0 W5)|]; reflexivity. }
     rewrite Hi, Hp. reflexivity.
-  - apply andb_prop in W. destruct W as [W Wb]. apply andb_prop in W. destruct W as [W Wtag].
+  - apply andb_prop in W. destruct W as [W Wb].
     apply andb_prop in W. destruct W as [W Wshape]. apply andb_prop in W. destruct W as [W Wne].
     apply andb_prop in W. destruct W as [W Wleaf]. apply andb_prop in W. destruct W as [_ Wi].
     rewrite (map_norm_wfc cls H0 Wb), (swap_default_id _ _ Wshape).
